@@ -53,6 +53,11 @@ def my_kernel(X, Y=None):
     return np.exp(-np.abs(X[:, None, :] - Y[None, :, :]).sum(2)) + 0.3 * X @ Y.T
 
 
+def my_kernel_pair(x, y):
+    """The same kernel for two single samples (what sklearn's pairwise_kernels expects of a callable)."""
+    return float(np.exp(-np.abs(x - y).sum()) + 0.3 * np.dot(x, y))
+
+
 def my_metric(X, Y=None):
     Y = X if Y is None else Y
     return np.abs(X[:, None, :] - Y[None, :, :]).max(2)       # Chebyshev, as a callable
